@@ -189,6 +189,25 @@ pub fn world_c18(tier: Tier, world_no: u64, mut t: Tape) -> WorldReport {
                 }
             }
         }
+        // a metadata block that repeats one of its labels (legal for the front end; what the ledger makes
+        // of it is not C18's matter - what the block lowers to must still be one byte string)
+        if t.draw(6) == 5 {
+            if let Some(at) = src.find("    metadata {\n") {
+                let body_from = at + "    metadata {\n".len();
+                if let Some(end_rel) = src[body_from..].find("    }\n") {
+                    let body = src[body_from..body_from + end_rel].to_string();
+                    let labels: Vec<&str> = body.lines().filter_map(|l| l.trim().split(':').next()).filter(|k| !k.is_empty()).collect();
+                    if let Some(first) = labels.first() {
+                        let extra = if labels.len() >= 2 {
+                            format!("        {}: \"again\",\n", first)
+                        } else {
+                            format!("        9{}: \"other\",\n        {}: \"again\",\n", first, first)
+                        };
+                        src.insert_str(body_from + end_rel, &extra);
+                    }
+                }
+            }
+        }
         (format!("generated-{world_no}"), src, false)
     };
     let nseeds = 8usize;
